@@ -163,4 +163,96 @@ theorem dropped_iff (K : List String) (key : String) :
   · rintro ⟨p, hp, hm⟩
     exact ⟨p, hm, (underPrefix_iff key (pfx_no_slash hp)).2 hp⟩
 
+/-! ### the annotation filter of `build` does not see keys under a marked prefix -/
+
+/-- the prefix of `k0` is marked independently of `k0`'s own presence: it is `kopf.zalando.org` or
+    a sub-domain, or another annotation (e.g. the `kopf-managed` marker) marks it. -/
+def Robust (A : Kvs) (k0 : String) (p0 : List Char) : Prop :=
+  knownish p0 = true ∨ ∃ k1, k1 ≠ k0 ∧ k1 ∈ keys A ∧ markedPrefix? k1 = some p0
+
+theorem filter_eq_of_imp {α} (f g : α → Bool) : ∀ (l : List α), (∀ x, x ∈ l → f x = true → g x = true) →
+    l.filter f = (l.filter g).filter f
+  | [], _ => rfl
+  | x :: l, h => by
+    have ih := filter_eq_of_imp f g l (fun y hy => h y (List.mem_cons_of_mem _ hy))
+    by_cases hf : f x = true
+    · have hg := h x List.mem_cons_self hf
+      simp [List.filter_cons, hf, hg, ← ih]
+    · by_cases hg : g x = true
+      · simp [List.filter_cons, hf, hg, ← ih]
+      · simp [List.filter_cons, hf, hg, ← ih]
+
+theorem mem_keys_of_filter {A A' : Kvs} {k0 key : String}
+    (hd : A'.filter (fun kv => kv.1 != k0) = A.filter (fun kv => kv.1 != k0)) (hne : key ≠ k0)
+    (h : key ∈ keys A) : key ∈ keys A' := by
+  simp only [keys, List.mem_map] at h ⊢
+  obtain ⟨kv, hkv, rfl⟩ := h
+  have : kv ∈ A.filter (fun kv => kv.1 != k0) := List.mem_filter.2 ⟨hkv, by simpa using hne⟩
+  rw [← hd] at this
+  exact ⟨kv, (List.mem_filter.1 this).1, rfl⟩
+
+theorem dropped_congr {A A' : Kvs} {k0 key : String} {p0 : List Char}
+    (hd : A'.filter (fun kv => kv.1 != k0) = A.filter (fun kv => kv.1 != k0))
+    (hp0 : pfx k0 = some p0) (hr : Robust A k0 p0) (hne : key ≠ k0) (hk : key ∈ keys A) :
+    (∃ p, pfx key = some p ∧ p ∈ markedPrefixes (keys A')) → (∃ p, pfx key = some p ∧ p ∈ markedPrefixes (keys A)) := by
+  rintro ⟨p, hp, hm⟩
+  refine ⟨p, hp, ?_⟩
+  obtain ⟨k, hkK, hmk⟩ := mem_markedPrefixes.1 hm
+  by_cases hkk : k = k0
+  · subst hkk
+    have : p = p0 := by
+      have := markedPrefix?_pfx hmk
+      rw [hp0] at this
+      exact (Option.some.inj this).symm
+    subst this
+    rcases hr with hkn | ⟨k1, _, hk1, hm1⟩
+    · exact mem_markedPrefixes.2 ⟨key, hk, markedPrefix?_knownish hp hkn⟩
+    · exact mem_markedPrefixes.2 ⟨k1, hk1, hm1⟩
+  · exact mem_markedPrefixes.2 ⟨k, mem_keys_of_filter hd.symm hkk hkK, hmk⟩
+
+theorem robust_symm {A A' : Kvs} {k0 : String} {p0 : List Char}
+    (hd : A'.filter (fun kv => kv.1 != k0) = A.filter (fun kv => kv.1 != k0)) (hr : Robust A k0 p0) :
+    Robust A' k0 p0 := by
+  rcases hr with h | ⟨k1, h1, h2, h3⟩
+  · exact Or.inl h
+  · exact Or.inr ⟨k1, h1, mem_keys_of_filter hd h1 h2, h3⟩
+
+theorem k0_dropped {A : Kvs} {k0 : String} {p0 : List Char} (hp0 : pfx k0 = some p0) (hr : Robust A k0 p0)
+    (hk : k0 ∈ keys A) : keepAnnotation (markedPrefixes (keys A)) k0 = false := by
+  have : (markedPrefixes (keys A)).any (fun p => underPrefix p k0) = true := by
+    rw [dropped_iff]
+    refine ⟨p0, hp0, ?_⟩
+    rcases hr with hkn | ⟨k1, _, hk1, hm1⟩
+    · exact mem_markedPrefixes.2 ⟨k0, hk, markedPrefix?_knownish hp0 hkn⟩
+    · exact mem_markedPrefixes.2 ⟨k1, hk1, hm1⟩
+  simp [keepAnnotation, this]
+
+/-- **the filtered annotations do not depend on what happens at a key under a marked prefix.** -/
+theorem filter_marked_eq {A A' : Kvs} {k0 : String} {p0 : List Char}
+    (hd : A'.filter (fun kv => kv.1 != k0) = A.filter (fun kv => kv.1 != k0))
+    (hp0 : pfx k0 = some p0) (hr : Robust A k0 p0) :
+    A'.filter (fun kv => keepAnnotation (markedPrefixes (keys A')) kv.1) =
+      A.filter (fun kv => keepAnnotation (markedPrefixes (keys A)) kv.1) := by
+  have hr' := robust_symm hd hr
+  have himp : ∀ (B : Kvs), Robust B k0 p0 → ∀ x, x ∈ B →
+      keepAnnotation (markedPrefixes (keys B)) x.1 = true → (x.1 != k0) = true := by
+    intro B hB x hx hkeep
+    by_cases he : x.1 = k0
+    · have hk : k0 ∈ keys B := by simp only [keys, List.mem_map]; exact ⟨x, hx, he⟩
+      rw [he, k0_dropped hp0 hB hk] at hkeep; cases hkeep
+    · simpa using he
+  rw [filter_eq_of_imp _ (fun kv => kv.1 != k0) A' (himp A' hr'),
+    filter_eq_of_imp _ (fun kv => kv.1 != k0) A (himp A hr), hd]
+  apply List.filter_congr
+  intro x hx
+  obtain ⟨hxA, hxne⟩ := List.mem_filter.1 hx
+  have hne : x.1 ≠ k0 := by simpa using hxne
+  have hkA : x.1 ∈ keys A := by simp only [keys, List.mem_map]; exact ⟨x, hxA, rfl⟩
+  have hkA' : x.1 ∈ keys A' := mem_keys_of_filter hd hne hkA
+  have hany : (markedPrefixes (keys A')).any (fun p => underPrefix p x.1) =
+      (markedPrefixes (keys A)).any (fun p => underPrefix p x.1) := by
+    rw [Bool.eq_iff_iff, dropped_iff, dropped_iff]
+    exact ⟨dropped_congr hd hp0 hr hne hkA, dropped_congr hd.symm hp0 hr' hne hkA'⟩
+  simp only [keepAnnotation, hany]
+
 end Kopf.C04
